@@ -256,7 +256,11 @@ def run():
 
     # ------------------------------------------------------------------ O3 transform output hashed completely
     def o3():
-        eng = oblig.engine(prog, unroll=0)
+        # helpers of hasher.rs are inlined down to the leaves, so a refactoring into helper functions does not hide the call
+        LEAF = r"(^|::)(open|stream_hash|evict_page_cache_if_low_mem|format_output_stream)$|HashCache::|FileMetadata::new$|Transform::run$|::warn$"
+        import optsum
+        eng = oblig.engine(prog, unroll=0, extra=optsum.SUMMARIES,
+                           inline=lambda c, t: oblig.defined_in(prog, t, "hasher.rs") and not re.search(LEAF, c) and not re.search(LEAF, t.name))
         engs.append(eng)
         ht = prog.method("FileHasher", "hash_transformed")
         ps = eng.run(ht)
